@@ -1,6 +1,7 @@
 // Package c03: cipher modes over SM4 (ECB, CBC, CFB, OFB, CTR, XTS IEEE/GB, BC, OFBNLF, HCTR) against one-shot
 // reference modes: every length (E2), every call split up to a depth (E1), in place / disjoint / longer dst, on
-// guard buffers, on every dispatch tier and through the fused, generic and batched code paths.
+// guard buffers, on every dispatch tier and through the fused, generic and batched code paths; widen*.go add the
+// argument-layout, shared-block, call-pair, set-up-argument and boundary-value dimensions.
 package c03
 
 import (
@@ -49,16 +50,24 @@ func (Prop) Rule() string {
 		"HCTR additionally: library-only round trip, all wrappers agree, object state dump unchanged by a call, and for every length and each of the 128 tweak bits: flipping the bit must change the ciphertext / must stop decryption from returning the plaintext (reported only after the reference confirms the two tweaks differ in result). " +
 		"E1 (engine.BFS on the real mode object, depth 3 quick / 4 thorough, states merged only on identical full private state dump + stream position): CryptBlocks(k blocks), k in {0,1,2,3,4,5,7,8,9,15,16,17,31,32,33}; " +
 		"XORKeyStream(c), c in {0,1,15,16,17,63,64,65,127,128,129,511,512,513}; SetIV(initial / other IV) where offered; XTS: non-final calls of 1..33 whole blocks, final calls of 16k+r bytes (k in 1,2,4,5,8,9,16,17; r in 1,8,15); disjoint and in-place machines; " +
-		"oracle per call = matching window of the one-call reference. distinct_nontrivial counts distinct (mode, direction, wrapper, IV class, length) tuples plus distinct reached machine states."
+		"oracle per call = matching window of the one-call reference. distinct_nontrivial counts distinct (mode, direction, wrapper, IV class, length) tuples plus distinct reached machine states. " +
+		"Widened input dimensions (all against the same references, all 10 modes behind one table, every admitted wrapper and direction): " +
+		"layout: 26 argument arrangements x a length list per mode (whole-block modes 0..40 blocks; byte-granular 0..84, 120..136, 250..262, 505..520; XTS 16..300; HCTR 16..100, 136..168, 264..296; thorough: every length to 560, HCTR to 320 and 520..560) - src||dst and dst||src carved from one array at odd addresses with capacities reaching to the end of the record, src/dst at 8 pairs of addresses mod 64 and dst==src at 1,8,15,17 mod 64 with dirty spare capacity, buffers that start right after a PROT_NONE page (disjoint, in place), len(dst)=len(src)+k for k in 1,15,16,17,64,256 and the same with dst starting at src for k in 1,16,64, nil slices; oracle: reference (HCTR lengths under the known finding: the library's own result with ordinary arrays), every byte of every surrounding array outside dst[:len(src)] unchanged. " +
+		"shared-block: one cipher.Block object per key, every ordered pair of the 18 (mode, direction) objects over it used alternately (3 calls each, sizes 288/48/16 resp. 291/45/20, XTS 288/48/21, HCTR 288/56/24), and all 36 objects round robin; XTS and OFBNLF through a CipherCreator returning the same block object for the same key. " +
+		"history/dst-longer: three calls on one object (sizes down and up), each with len(dst)=len(src)+k, k in 1,16,33. " +
+		"split-pairs: CFB/OFB/CTR (fused and generic, CTR also from counter 2^64-3): fresh object, calls of a, b, 40 bytes for every a in 0..130 and 480..530, b in 0..40 and 495..530 (thorough a in 0..600, b in 0..80, 340..400, 430..470, 495..530), disjoint and in place; XTS: first call of 1..9,15,16,17 blocks then a final call of every length 16..175 (thorough ..300), all wrappers. " +
+		"ctor-record / setiv-argument: all 18 slice-taking constructors and the 4 XTS sector-number constructors with key||iv||second key||message in one record, capacities to the end; the same slices re-used for a second constructor, then overwritten; the two objects used alternately; SetIV with a slice directly in front of the message of the following in-place call, overwritten after SetIV. " +
+		"values: 13 HCTR hash keys entering every branch of the key-table set-up (incl. 0) x 2 tweaks x 10 lengths; 13 XTS tweaks chosen as D_K2(T) so that the encrypted tweak T is 0, all ones, or a single bit at either end of either 64-bit half x 30 lengths; CTR counters 2^(8k)-j for every byte boundary, j=0..17; all-zero / all-ones keys, IVs and message contents for every mode (also decryption OF such content); messages of 4096, 4113, 8200 bytes (thorough 16384, 65553)."
 }
 
 func (Prop) Assumptions() []string {
 	return []string{
 		"reference modes written from SP 800-38A, IEEE 1619, GB/T 17964-2021 and the HCTR paper over a reference SM4; anchored by SP 800-38A AES vectors, IEEE 1619 XTS-AES vectors, the GB/T 17964-2021 SM4 examples for XTS(GB), BC, OFBNLF and the whole-block HCTR examples, and by agreement with crypto/cipher over AES for byte-granular lengths and counter carries",
-		"keys and IVs/tweaks are a small fixed alphabet (two key sets, IV 0^128, 1^128, one pattern, 72 carry counters for CTR); the property's 'every key, IV' is not covered beyond it",
-		"lengths above 2100 bytes, data units of 2^20 blocks, and CTR streams longer than 2100 bytes are not explored",
+		"keys and IVs/tweaks are a small fixed alphabet (two key sets, IV 0^128, 1^128, one pattern, 72+216 carry counters for CTR, all-zero and all-ones keys, 13 boundary hash keys for HCTR, 13 boundary values of the encrypted XTS tweak); the property's 'every key, IV' is not covered beyond it",
+		"every length up to 2100 bytes, beyond that only 4096, 4113, 8200, 16384 and 65553 bytes in single calls; data units of 2^20 blocks and counters advancing by more than 4097 blocks are not explored",
 		"dispatch tiers are those reachable on this amd64 host via GODEBUG=cpu.*=off, FORCE_SM4BLOCK_AESNI=1 and -tags purego; arm64, ppc64le and s390x assembly are not covered; the 'conc' wrapper reaches the batched Go loops that are the production XTS path on ppc64le",
-		"out-of-slice reads before the start of a buffer are not observable; out-of-slice access past the end kills the worker and is reported as crash@<frame>",
+		"out-of-slice access past the end of a buffer kills the worker and is reported as crash@<frame>; access in front of a buffer does the same only in the front-guard arrangements of the layout family (elsewhere writes in front are seen through sentinels, reads in front are not observable)",
+		"a cipher.Block is taken to be shareable between mode objects used one after the other in one goroutine (concurrent use is the subject of C20); the CipherCreator handed to XTS/OFBNLF may return the same block object for the same key",
 		"calls violating documented preconditions (partial blocks to a BlockMode, XTS/HCTR input shorter than a block, dst shorter than src, partial overlap, wrong IV length) are not enumerated",
 		"CBC/CFB/OFB/CTR over the 'hidden' wrapper execute Go standard library code over the SM4 block; CFB and OFB have no fused path and are run with the plain block only",
 	}
@@ -206,4 +215,7 @@ func (Prop) Run(c *engine.Ctx) {
 			}
 		}
 	}
+
+	// ---- widened input dimensions (widen*.go)
+	runWiden(c)
 }
